@@ -4,7 +4,8 @@ COMMON_STUBS = [
     "sdk.Int/sdk.Uint/math/big.Int methods -> exact SMT Int arithmetic (truncated Quo, Euclidean Mod); the SDK's 255-bit overflow panic is not modelled for derived values (inputs are bounded to +-2^255)",
     "fmt/pkg-errors/sdkerrors formatting -> opaque error values with cause chains; messages are not compared",
     "strconv.Format*/Parse*, Int.String/NewIntFromString -> mutually inverse lazy decimal rendering (digits not encoded)",
-    "sync.Mutex/RWMutex/WaitGroup/Once -> no-ops (single-goroutine model)",
+    "sync.Mutex/RWMutex/WaitGroup/Once -> no-ops (single-goroutine model); sync.Map -> insertion-ordered association list per map object",
+    "reflect.DeepEqual -> structural equality over slices (nil-ness, length, elements), structs, arrays, pointers and interfaces",
 ]
 
 PROPS = {}
@@ -240,7 +241,7 @@ PROPS["C10"] = {
     "jobs": [{"pkg": "validation", "files": ["harness/C10/crossval.go"], "quick": C10_Q,
               "thorough": C10_Q + ["Harness_C10_2x3", "Harness_C10_3x2", "Harness_C10_3x3"], "opts": {"timeout": 30000},
               "reach": {h: ["accepted", "rejected"] for h in ["Harness_C10_1x1", "Harness_C10_2x2"]}}],
-    "bounds": {"quick": "validateManifestDeploymentGroup: <=2 on-chain resource records x <=2 manifest services (thorough 3x3), every cpu/memory/storage value a symbolic integer in [0,2^62), replica counts symbolic in [1,1000], <=2 endpoints per on-chain record and <=2 exposes per service with symbolic port/external port/protocol/global flag; group-name matching with <=2 groups per side over 3 names",
+    "bounds": {"quick": "validateManifestDeploymentGroup: <=2 on-chain resource records x <=2 manifest services (thorough 3x3), every cpu/memory/storage value a symbolic integer in [0,2^62), replica counts symbolic in [1,1000], <=2 endpoints per on-chain record and <=2 exposes per service with symbolic port/external port/protocol/global flag; group-name matching through ValidateManifestWithDeployment with <=2 groups per side over 3 names, every on-chain group in any of its 4 states",
                "thorough": "3x3 records/services"},
     "stubs": COMMON_STUBS,
     "outside_claim": ["the manifest version hash (json.Marshal + SortJSON + SHA-256 are reflection/crypto code outside the encodable fragment)", "attribute lists inside resource units (empty)", "more than 3 records per group"],
@@ -255,7 +256,7 @@ PROPS["C18"] = {
              {"pkg": "sdl", "files": ["harness/C18/toplevel.go", "harness/C18/attrs.go"], "shims": ["shim.go.tmpl", "shim_loop.go.tmpl"],
               "quick": ["Harness_C18_toplevel_order", "Harness_C18_attr_order"], "thorough": ["Harness_C18_toplevel_order", "Harness_C18_attr_order"], "opts": {"timeout": 30000, "witness": 4},
               "reach": {"Harness_C18_toplevel_order": ["unmarshalled"], "Harness_C18_attr_order": ["unmarshalled"]}}],
-    "bounds": {"quick": "top level: (*sdl).UnmarshalYAML on a mapping node with the entries version/services/profiles/deployment in all 24 orders (node.Decode stubbed in the engine); decoded SDL v2 value: <=2 services x <=2 placements (not both 2 in quick) x <=2 compute profiles, 1 expose per service (thorough 2) with symbolic port/as/proto/to/global, symbolic 1-byte image suffix/command/argument/env value, symbolic counts, cpu/memory/storage and prices inside the chain's limits; determinism: two runs with every Go map iteration order explored independently",
+    "bounds": {"quick": "top level: (*sdl).UnmarshalYAML on a mapping node with the entries version/services/profiles/deployment in all 24 orders (node.Decode stubbed in the engine); decoded SDL v2 value: <=2 services x <=2 placements (not both 2 in quick) x <=2 compute profiles, 1 expose per service (thorough 2) with symbolic port/as/proto/to/global, symbolic 1-byte image suffix/command/argument/env value, symbolic counts, cpu/memory/storage, one symbolic cpu and one storage attribute per profile, and prices inside the chain's limits; determinism: two runs with every Go map iteration order explored independently",
                "thorough": "2x2 services x placements (faithfulness), 2 exposes; the 2x2 determinism instance does not finish in 25 min (every map range is a permutation choice in both runs) and is not registered"},
     "stubs": COMMON_STUBS + ["sort.Slice/sort.Strings -> real sort code with an engine swapper", "regexp (service names, env names, hostnames) -> native evaluation on concrete strings"],
     "outside_claim": ["YAML parsing and unit-string parsing (yaml.Unmarshal, units.go): the claim starts at the decoded v2 value, so 'any reordering of YAML mapping keys' is covered as 'any Go map iteration order'", "the version hash (json.Marshal/SortJSON/SHA-256)"],
@@ -276,7 +277,7 @@ PROPS["C13"] = {
              {"pkg": "provider/bidengine", "files": ["harness/C13/order.go", "harness/C13/service.go"], "shims": ["shim.go.tmpl", "shim_loop.go.tmpl"],
               "quick": ["Harness_C13_service_3"], "thorough": ["Harness_C13_service_4"],
               "opts": {"timeout": 20000, "witness": 4}, "reach": {"Harness_C13_service_3": ["observed"], "Harness_C13_service_4": ["observed"]}}],
-    "bounds": {"quick": "(*service).run: 0/1 catch-up order (with or without a bid from an earlier session), <=3 (thorough 4) events out of {order-created X, order-created Y, unrelated}, no monitor finishing inside the window; (*order).run with both values of checkForExistingBid; <=7 (existing-bid: 8) selects before shutdown is forced, then the post-loop clean-up and drain; <=2 chain events drawn from 6 kinds (lease won / lost / other group, order closed this / other, unrelated); every asynchronous step (group query, existing-bid query, reservation, pricing, bid broadcast, close-bid broadcast) completes ok or fails at any scheduler-chosen point, including after the loop has exited; bid timeout; shutdown at any point; strategy price below and above the order's maximum",
+    "bounds": {"quick": "(*service).run: 0/1 catch-up order (with or without a bid from an earlier session), <=3 (thorough 4) events out of {order-created X, order-created Y, unrelated}, no monitor finishing inside the window; (*order).run with both values of checkForExistingBid; <=7 (existing-bid: 8) selects before shutdown is forced, then the post-loop clean-up and drain; <=2 chain events drawn from 6 kinds (lease won / lost / other group, order closed this / other, unrelated); every asynchronous step (group query, existing-bid query, reservation, pricing, bid broadcast, close-bid broadcast) completes ok or fails at any scheduler-chosen point, including after the loop has exited; bid timeout; shutdown at any point; strategy price below and above the order's maximum (group of two resource records, unit price x count 10x1 + 30x3)",
                "thorough": "9 / 10 selects; and 10 / 11 selects with <=3 chain events"},
     "stubs": LOOP_STUBS,
     "outside_claim": ["true multi-goroutine interleavings inside one component and data races", "shouldBid's auditor-signature path (no signature requirements in the harness order)", "service level: re-announcement of an order after its monitor has finished; service shutdown/drain; in the engine newOrder is a model of the monitor's first visible effects (natively the real monitors run)"],
@@ -290,10 +291,10 @@ PROPS["C14"] = {
              {"pkg": "provider/cluster", "files": ["harness/C14/manager.go", "harness/C14/service.go", "harness/C14/hostname.go"], "shims": ["shim.go.tmpl", "shim_loop.go.tmpl"],
               "quick": ["Harness_C14_service_4", "Harness_C14_hostnames", "Harness_C14_hostnames_release"], "thorough": ["Harness_C14_service_5", "Harness_C14_hostnames", "Harness_C14_hostnames_release"],
               "opts": {"timeout": 20000, "witness": 4}, "reach": {"Harness_C14_service_4": ["observed", "released"], "Harness_C14_service_5": ["observed", "released"], "Harness_C14_hostnames": ["reserved", "nothing-reserved", "released"], "Harness_C14_hostnames_release": ["released-and-retaken"]}}],
-    "bounds": {"quick": "(*deploymentManager).run with startDeploy/startTeardown/do/doDeploy/doTeardown: <=6 selects before shutdown is forced, then the post-loop drain; hostname reservation ok/failed, <=2 manifest updates, one lease-closed (teardown) request, deploy and teardown completing ok or failing at any scheduler-chosen point, provider shutdown at any point",
+    "bounds": {"quick": "(*deploymentManager).run with startDeploy/startTeardown/do/doDeploy/doTeardown: <=6 selects before shutdown is forced, then the post-loop drain; hostname reservation ok/failed, <=2 manifest updates, one lease-closed (teardown) request, deploy and teardown completing ok or failing at any scheduler-chosen point, provider shutdown at any point; the update/teardown request channels have the capacity the real newDeploymentManager gives them (a send on a buffered one is an event of its own); cluster (*service).run: <=4 selects (thorough 5) over manifest-received / lease-closed / unrelated events and manager completions, with models of the manager's visible effects: reservation released once the lease is closed and no manager is left, the service tracks exactly the unfinished managers; hostname service reserve/release from an arbitrary table",
                "thorough": "8 and 10 selects"},
     "stubs": LOOP_STUBS + ["newDeploymentMonitor/newDeploymentWithdrawal -> already-finished stubs in the engine (natively the real ones run against the stub client)", "retry.Do -> up to 3 immediate attempts"],
-    "outside_claim": ["the cluster service's own loop (reservation release on manager completion) and the hostname service internals", "true multi-goroutine interleavings and data races", "runs pre-empted by provider shutdown keep the safety obligations but not 'teardown is invoked' (shutdown deliberately leaves workloads running)"],
+    "outside_claim": ["the inventory and hostname service internals (the cluster service loop is encoded with models of the manager's visible effects; natively the real managers run)", "true multi-goroutine interleavings and data races", "runs pre-empted by provider shutdown keep the safety obligations but not 'teardown is invoked' (shutdown deliberately leaves workloads running)"],
     "assumptions": ["a cluster operation starts when its goroutine is spawned and its effects happen atomically at its completion point"],
 }
 
@@ -318,7 +319,7 @@ PROPS["C11"] = {
               "reach": {"Harness_C11_namespace": ["namespace"], "Harness_C11_container": ["container"], "Harness_C11_netpol": ["netpol"], "Harness_C11_netpol_applied": ["applied-twice", "netpol"], "Harness_C11_deploy": ["deployed"]}},
              {"pkg": "provider/cluster/kube", "files": ["harness/C11/builders.go", "harness/C11/clientset.go"], "quick": ["Harness_C11_commit"], "thorough": ["Harness_C11_commit"],
               "opts": {"timeout": 60000, "witness": 2, "inctimeout": 0}, "reach": {"Harness_C11_commit": ["commit"]}}],
-    "bounds": {"quick": "lidNS on an arbitrary 28-byte digest (arbitrary owner address; SHA-224 uninterpreted); deploymentBuilder.create/update/container with symbolic cpu/memory/storage in [1,2^44] (bit-vectors) at commit levels 0/0.5/1, 3 runtime classes; the float64 commit-level kernel ComputeCommittedResources for every value in [1,2^44] at the factors {0,0.5,1,1.5,2,3,10,1024} (a fully symbolic factor times out on all three solvers); netPolBuilder.create with one and with two services, one symbolic expose each, the attacked pod belonging to either service, evaluated by a policy evaluator in the harness for an arbitrary peer (same namespace / ingress namespace / ingress pod flags), destination port and protocol, and an arbitrary IPv4 egress address (bit-vector) and port; nsBuilder and serviceBuilder objects; the whole (*client).Deploy (first deploy and redeploy, network policies on/off) and TeardownLease for one service with an ingress, a node-port and an internal expose against typed fakes of both clientsets",
+    "bounds": {"quick": "lidNS on an arbitrary 28-byte digest (arbitrary owner address; SHA-224 uninterpreted); deploymentBuilder.create/update/container with symbolic cpu/memory/storage in [1,2^44] (bit-vectors) at commit levels 0/0.5/1, 3 runtime classes; the float64 commit-level kernel ComputeCommittedResources for every value in [1,2^44] at the factors {0,0.5,1,1.5,2,3,10,1024} (a fully symbolic factor times out on all three solvers); netPolBuilder.create with one and with two services, one symbolic expose each, the attacked pod belonging to either service, evaluated by a policy evaluator in the harness for an arbitrary peer (same namespace / ingress namespace / ingress pod flags), destination port and protocol, and an arbitrary IPv4 egress address (bit-vector) and port; nsBuilder and serviceBuilder objects; the whole (*client).Deploy (first deploy and redeploy, network policies on/off; at every write of a workload object the namespace's policies must already exist) and TeardownLease for one service with an ingress, a node-port and an internal expose against typed fakes of both clientsets",
                "thorough": "same harnesses with a 240 s solver budget"},
     "stubs": COMMON_STUBS + ["sha256.Sum224 -> native on concrete input, fresh symbolic digest on symbolic input", "strings.ToLower -> per-byte ite", "math.Round -> fp.roundToIntegral RNA", "resource.Quantity -> opaque integer amount with scale (NewQuantity/NewScaledQuantity/DeepCopy/Value/MilliValue)"],
     "outside_claim": ["distinct leases => distinct namespaces rests on SHA-224 collision resistance (assumed)", "label selectors of cleanupStaleResources (the fakes ignore them)", "the content of ingress objects", "what the API server / CNI enforce", "commit factors other than the 8 listed; values above 2^44"],
@@ -355,7 +356,7 @@ PROPS["C15"] = {
              {"pkg": "events", "files": ["harness/C15/feeder.go"], "shims": ["shim.go.tmpl", "shim_loop.go.tmpl"],
               "quick": ["Harness_C15_feeder"], "thorough": ["Harness_C15_feeder"], "opts": {"timeout": 20000, "witness": 2},
               "reach": {"Harness_C15_feeder": ["fed"]}}],
-    "bounds": {"quick": "single-step lemmas on the real (*bus).run body and newSubscriber: bus in root or subscriber mode with 0/1/2 buffered events and 0/1/2 children; one of publish / emit / subscribe(clone) / unsubscribe, then shutdown with its post-loop collection of children; variants in which one of 2 children has already begun shutting down (it no longer reads; every map iteration order); bounded sequences on one subscriber loop (<=3 publications and any number of consumer reads within 4-5 loop steps, thorough 6): delivered ++ buffer = initial buffer ++ published, in order; feeder: the real events.publishEvents loop fed 3 transaction results back to back (the second failed or not), any goroutine it starts completing in any order",
+    "bounds": {"quick": "single-step lemmas on the real (*bus).run body and newSubscriber: bus in root or subscriber mode with 0/1/2 buffered events and 0/1/2 children; one of publish / emit / subscribe(clone) / unsubscribe, then shutdown with its post-loop collection of children; variants in which one of 2 children has already begun shutting down (it no longer reads; every map iteration order); bounded sequences on one subscriber loop (<=3 publications and any number of consumer reads within 4-5 loop steps, thorough 6): delivered ++ buffer = initial buffer ++ published, in order; publisher side: (*bus).Publish on a subscriber that no longer reads, shutdown beginning before the call or while the publisher waits; feeder: the real events.publishEvents loop fed 3 transaction results back to back (the second failed or not), any goroutine it starts completing in any order",
                "thorough": "adds 3 buffered events x 1 child, and 3 children one of them closing"},
     "stubs": LOOP_STUBS + ["child buses -> environment sinks/sources (their own loops are not run in the engine; natively live reader goroutines stand in for them)"],
     "outside_claim": ["the end-to-end statement over all interleavings of concurrent goroutines: it follows from the step lemmas only through a hand-written compositional argument (per-subscriber FIFO invariant) that is not solver-checked", "data races"],
